@@ -459,13 +459,15 @@ func (g *G) varyValue() string {
 func (g *G) selectingHeaders() []Hdr {
 	var hs []Hdr
 	if g.chance(0.6) {
-		hs = append(hs, Hdr{"Accept-Encoding", []string{g.pick("gzip", "br", "gzip, br", "br, gzip", "x-gzip", "gzip;q=0.5, br", "identity")}})
+		hs = append(hs, Hdr{"Accept-Encoding", []string{g.pick("gzip", "br", "gzip, br", "br, gzip", "x-gzip", "gzip;q=0.5, br", "identity",
+			// weights: small ones are weights like any other; only q=0 (in any number of decimals) means "not acceptable"
+			"gzip, br;q=0.05", "gzip, br;q=0.001", "gzip, br;q=0", "gzip, br;q=0.000", "gzip, deflate;q=0.05", "br;q=0.099", "br;q=0.01", "br;q=1.000", "gzip;q=0.50, br")}})
 	}
 	if g.chance(0.4) {
 		hs = append(hs, Hdr{"X-Custom", []string{g.pick("a", "b", "A", "a ")}})
 	}
 	if g.chance(0.2) {
-		hs = append(hs, Hdr{"Accept-Language", []string{g.pick("en", "en, fr;q=0.8", "fr;q=0.8, en", "de")}})
+		hs = append(hs, Hdr{"Accept-Language", []string{g.pick("en", "en, fr;q=0.8", "fr;q=0.8, en", "de", "en, de;q=0.05", "en, fr;q=0.05", "de;q=0.05", "en, fr;q=0.0", "en;q=0.001")}})
 	}
 	if g.chance(0.15) {
 		hs = append(hs, Hdr{"User-Agent", []string{g.pick("Agent/1", "agent/1", "Other")}})
@@ -621,6 +623,10 @@ var nearMisses = []string{
 	// ... and URIs that differ only inside such an escape, or from the well-formed escape a lenient reader would see
 	"http://a.test/x?id=%4z", "http://a.test/x?id=%40", "http://a.test/x?d=10%&x=1", "http://a.test/x?d=10%&y=1",
 	"http://a.test/x?d=%zz", "http://a.test/x?d=%yy", "http://a.test/x?d=%00",
+	// ports: the default one may be left out; port 0 (in any number of digits) is a port like any other, not "none";
+	// leading zeros are kept as written
+	"http://a.test:0/x", "http://a.test:00/x", "http://a.test:080/x", "https://a.test:0/x", "https://a.test:443/x", "http://a.test:443/x",
+	"http://[::1]:0/x", "http://[::1]/x", "http://[::1]:80/x",
 }
 
 func (g *G) urlFor(res int, respell bool) string {
